@@ -284,6 +284,9 @@ func genSpec(rng *mrand.Rand, i int) ech.ConfigSpec {
 			s.CipherSuites = append(s.CipherSuites, suiteIDs[rng.IntN(3)])
 		}
 	}
+	if rng.IntN(12) == 0 {
+		s.Version = []uint16{0, 0xfe0c, 0xfe0e, 0x0303, uint16(rng.IntN(65536))}[rng.IntN(5)]
+	}
 	nl := 1 + (i/256+i)%255
 	s.PublicName = genName(rng, nl, rng.IntN(4) != 0 && nl >= 3)
 	s.MaximumNameLength = uint8(rng.IntN(256)) // must be ignored: derived from the name
@@ -369,6 +372,16 @@ func TestCheck(t *testing.T) {
 				r.Eval(fmt.Sprintf("codec|empty|%d|%d", len(spec.PublicKey), len(spec.CipherSuites)))
 				return
 			}
+			if spec.Version != 0xfe0d {
+				// the only ECHConfig version there is: anything else is no config a client can use
+				if err == nil {
+					r.Violate("codec", i, "codec:other-version-encoded", fmt.Sprintf("ConfigSpec.Bytes produced a config of version 0x%04x", spec.Version), c)
+				} else {
+					r.Count("codec_refused_other_version", 1)
+				}
+				r.Eval(fmt.Sprintf("codec|version|%04x", spec.Version))
+				return
+			}
 			if err != nil && !strictName(spec.PublicName) {
 				r.Count("codec_refused_name_no_client_would_accept", 1)
 				r.Eval(fmt.Sprintf("codec|refused|%d", len(spec.PublicName)))
@@ -439,11 +452,12 @@ func TestCheck(t *testing.T) {
 		var specs []ech.ConfigSpec
 		for j := 0; j < n; j++ {
 			s := genSpec(rng, rng.IntN(1<<20))
+			s.Version = 0xfe0d // ParseConfigList refuses lists that hold configs of other versions
 			if len(s.PublicKey) == 0 {
 				s.PublicKey = []byte{1}
 			}
 			b, err := s.Bytes()
-			if err != nil && (!strictName(s.PublicName) || len(s.PublicKey) == 0 || len(s.CipherSuites) == 0) {
+			if err != nil && (!strictName(s.PublicName) || len(s.PublicKey) == 0 || len(s.CipherSuites) == 0 || s.Version != 0xfe0d) {
 				b, err = refEncode(s), nil // a foreign config: lists carry configs as opaque byte strings
 			}
 			if err != nil {
@@ -680,6 +694,7 @@ func TestCheck(t *testing.T) {
 		var cfgs []ech.Config
 		for j := 0; j < n; j++ {
 			s := genSpec(rng, rng.IntN(1<<20))
+			s.Version = 0xfe0d
 			if len(s.PublicKey) == 0 {
 				s.PublicKey = []byte{9}
 			}
